@@ -28,7 +28,12 @@ MANIFEST = dict(
           "unit NAMED xa with an independent symbolic scale (looked up in a second registry; made before registry.modify; made before "
           "remove + add; built with explicit values), so that names cancel or merge in the expression (xa/xA -> 1, xa*xA -> xa**2) while the "
           "scales do not: every law must hold on (scale, dimension) for all pairs of scales, with the cancelled quotient on either side of "
-          "every operator. A simplified unit (expression a bare number or number * symbols) is used as an operand as well. Encoding: a positive scale is written s = t**N (N = the root degree the case needs) so "
+          "every operator. A simplified unit (expression a bare number or number * symbols) is used as an operand as well. Operand axis 'expression "
+          "carries a number': the term / pair / triple / power-of-power catalogue and the simplify / as_coeff_unit / cached-rule obligations are walked "
+          "again over atoms xa, cxa = c*xa, cxb = c'*xb, cn = a bare number as a unit, xz = a dimensionless unit with its own symbolic scale, for six "
+          "origins of the coefficient (parsed string, sympy expression, Unit(quantity), explicit values, left behind by simplify(), bare-number unit "
+          "multiplied in / like symbols divided out), integer, rational and Float coefficients, every exponent of E: scale, dimension and the "
+          "expression read back must agree with the monomial c**p * s**p for all scales. Encoding: a positive scale is written s = t**N (N = the root degree the case needs) so "
           "that every rational power is an exact monomial; the exponent bookkeeping of that normal form is harness code (trusted), "
           "the remaining (in)equalities - rounded coefficients, equality bands, offset forks - are z3 queries; all depth <= 1 terms are "
           "also run with plain symbols and the engine's root witnesses (QF_NRA) as a cross-check. Enumerated, not solved: term shapes, "
@@ -62,7 +67,15 @@ EXPLANATION = (
     "only, a result may live in either operand's registry, equal hashes are asked of two sides in one registry - plus v*(u/v) == u and "
     "u*(v/v) == u, the equality sandwich on 12 pairs (xa == xA iff the scales agree, xb*(xa/xA) == xb iff they agree ...), and simplify / "
     "as_coeff_unit / _multiply_units / _divide_units (both operand orders, warm cache) / unary rules on 10 operand pairs. In every simplify "
-    "case the simplified unit is also used as left and right operand of *, / and as base of a power."
+    "case the simplified unit is also used as left and right operand of *, / and as base of a power. "
+    "Family C05/coef/<origin>/...: the expression of a unit may carry a numeric coefficient (100*xa, 5*xb/2, 2.54*xb, the bare number 40), which is "
+    "part of the scale as well - one more place where expression, scale and dimension can drift apart (a step that splits the coefficient off, reads "
+    "the unit off the symbols only, or takes 'the expression is a number' for 'nothing to do'). Atoms xa, cxa, cxb, cn, xz (dimensionless, own symbolic "
+    "scale) go through the term (every exponent of E in four spellings on the atoms), pair, triple and power-of-power obligations of the main family; "
+    "oracle: the monomial coefficient**p * scales**p with the harness' own coefficient table per origin; the expression is read back by the independent "
+    "evaluator (numbers, radicals of numbers, symbols). Identical spelling of the two sides of a law is asked only where sympy keeps numbers in one exact "
+    "canonical form (no Float, no radical of a number). Forms cases: as_coeff_unit and simplify of u*v, u/v, v*u and of three fractional powers, "
+    "_multiply_units / _divide_units (cold, warm, swapped), _sqrt/_cbrt/_square/_reciprocal/_power_unit on 11 operand pairs."
 )
 BOUNDS = {
     "quick": "atoms {xa, xb, xc, kxa}; all 88 terms of depth <= 1 with every p in E given as Fraction/float/sympy Rational/numpy float, 260 seeded "
@@ -76,13 +89,19 @@ BOUNDS = {
              "alike-spelled operands (atoms xa, xA, kxA, xb; kinds tworeg, modify, readd, explicit): all 88 terms of depth <= 1 (those holding xa next "
              "to its partner under all 4 kinds with 5 exponents, the others under one kind in rotation with 3), 60 + 40 seeded terms of depth 2 / 3 "
              "(one kind each, in rotation), all 16 atom pairs (mixed ones under all kinds) + 40 seeded pairs, all 64 atom triples + 30 seeded "
-             "triples (one kind each), 12 equality pairs x 4 kinds, 10 simplify/cached-rule operand pairs x 4 kinds: 482 cases",
+             "triples (one kind each), 12 equality pairs x 4 kinds, 10 simplify/cached-rule operand pairs x 4 kinds: 482 cases; "
+             "coefficient-carrying operands (atoms xa, cxa, cxb, cn, xz; 6 origins; coefficients 100, 1000, 5/2, 2.5, 2.54, 40): the 3 coefficient atoms "
+             "under all 6 origins with all 13 exponents in 4 spellings, the 50 products / quotients of two atoms (5 exponents), 30 + 20 seeded terms of "
+             "depth 2 / 3, power-of-power over E x E for the 3 coefficient atoms, all 25 atom pairs + 15 seeded pairs, 40 of the 125 atom triples + 10 "
+             "seeded triples (one origin each, in rotation), 11 simplify/as_coeff_unit/cached-rule operand pairs (6 of them under all origins): 290 cases",
     "thorough": "same atoms; 1800 seeded terms of depth 2 and 1800 of depth 3; power-of-power over E x E for 40 terms; 1000 seeded pairs, 1000 seeded "
                 "triples; 1000 simplify and 300 cached-rule cases; equality, hash and guard tables as in quick, plus: 324 equality-law cases (every "
                 "restatement on all 12 pairs), 694 magnitude table pairs (EVERY same-dimension pair of the 145 table atoms, prefixes y..Y on 8 bases); "
                 "all ordered pairs of the 145 table atoms (ground); alike-spelled operands: every depth <= 1 term, atom pair and atom triple under all "
                 "4 kinds, 400 + 400 seeded terms of depth 2 / 3, 300 seeded pairs, 300 seeded triples (one kind each, in rotation), equality and "
-                "simplify/cached-rule tables as in quick: 2322 cases",
+                "simplify/cached-rule tables as in quick: 2322 cases; coefficient-carrying operands: every depth <= 1 term (incl. all powers of "
+                "atoms) and atom pair holding a coefficient atom under all 6 origins, 300 + 300 seeded terms of depth 2 / 3, 200 seeded pairs, all 125 atom "
+                "triples + 200 seeded triples, power-of-power and forms tables under all origins",
 }
 OUTSIDE = ("IEEE rounding (A1); cancellation inside simplify() with symbolic scales (table units there: ground obligations); term shapes "
            "beyond the catalogue (depth > 3, root degree > 36); units of non-positive scale; hash equality of *different* spellings of "
@@ -94,7 +113,10 @@ OUTSIDE = ("IEEE rounding (A1); cancellation inside simplify() with symbolic sca
            "registry's current scales, symbolic there), like-named partners obtained by copy / deepcopy / pickle (C11, C13) or carrying an offset; "
            "equality restatements inside the edge zone of the band (scales a relative 1e-11..1e-7 apart: "
            "rounding and |p| <= 3 may tip the verdict there); scales below 1e-90 / above 1e90 in replays of the equality cases; "
-           "odd and fractional powers of compound pairs in the law family (atoms only)")
+           "odd and fractional powers of compound pairs in the law family (atoms only); in the coefficient family: the SPELLING of a result whose "
+           "expression holds a Float or a radical of a number (two routes may spell one number differently; scale, dimension and == are asserted), "
+           "simplify() of a dimensionless unit with a symbolic scale (it folds the scale into the coefficient: the table's % is used there), symbolic "
+           "coefficients (sympy cannot hold a solver term: six concrete values)")
 ASSUMPTIONS = ["MonoReal (harness/unitterms_common.py): a positive scale symbol is introduced as t**N; the exponent arithmetic that keeps products, "
                "quotients and rational powers of such scales in exact monomial form, and the reduction of closeness/isclose of two monomials over the "
                "same power product to their rational coefficients, are harness code",
@@ -122,12 +144,13 @@ TABLE = {
 }
 
 
-def mono_expand(t):
-    """monomial over the *base* atoms: kxa is 1000 * xa (prefix table of the harness)"""
+def mono_expand(t, defs=None):
+    """monomial over the *base* atoms: kxa is 1000 * xa (prefix table of the harness); defs: further atom definitions of the case"""
     m = mono(t)
     out = Mono(m.coef, {})
     for a, e in m.exps.items():
-        out = out * ((ATOM_DEF[a] if a in ATOM_DEF else Mono(Fraction(1), {a: Fraction(1)})) ** e)
+        d = defs[a] if defs and a in defs else (ATOM_DEF[a] if a in ATOM_DEF else Mono(Fraction(1), {a: Fraction(1)}))
+        out = out * (d ** e)
     return out
 
 
@@ -278,6 +301,19 @@ def _prefix_lookup(scale_of, dimvec_of):
     return lookup
 
 
+def _has_float(expr):
+    """does the expression hold a number that sympy does not keep in one canonical exact form: a Float, or a radical of a number
+    (40**(9/4) and (80*sqrt(10))**(3/2) are the same number in two spellings)"""
+    import sympy
+    return bool(expr.atoms(sympy.Float)) or irrational_factor(expr)
+
+
+def irrational_factor(expr):
+    """does the expression hold a power of a NUMBER (sqrt(10), 5**(2/3)): a numeric factor that is not a sympy Number"""
+    import sympy
+    return any(q.base.is_Number for q in expr.atoms(sympy.Pow))
+
+
 def same_unit(ctx, tag, lhs, rhs, m, scale_of, dimvec_of, identical_expr=False, cross=False):
     """a law lhs == rhs: both sides equal the oracle, agree in dimension, and the real Unit.__eq__/__ne__ say so.
     cross (operands of two registries): the two sides may live in different registries, equal hashes are asked of one registry only"""
@@ -289,6 +325,8 @@ def same_unit(ctx, tag, lhs, rhs, m, scale_of, dimvec_of, identical_expr=False, 
     eq = bool(lhs == rhs)
     ctx.require(f"{tag}: Unit.__eq__", eq)
     ctx.require(f"{tag}: Unit.__ne__", (lhs != rhs) is (not eq))
+    if identical_expr and (_has_float(lhs.expr) or _has_float(rhs.expr)):
+        identical_expr = False   # a rounded coefficient (sympy Float) or a radical of a number: two routes may spell it differently, the spelling is not asserted
     if identical_expr and cross and lhs.registry is not rhs.registry:
         ctx.require(f"{tag}: identical expression", lhs.expr == rhs.expr)
     elif identical_expr:
@@ -297,18 +335,22 @@ def same_unit(ctx, tag, lhs, rhs, m, scale_of, dimvec_of, identical_expr=False, 
 
 # ----------------------------------------------------------------------------- term cases: homomorphism + unary laws
 
-def make_term_case(t, ps, witness=False, alike=None):
+def make_term_case(t, ps, witness=False, alike=None, coef=None):
     N = root_degree(t) * 6
 
     def h(ctx):
-        if alike is None:
+        defs = None
+        if coef is not None:
+            reg, env, scale_of, dimvec_of, defs = make_coef_env(ctx, coef, N=N)
+            regs, x = None, False
+        elif alike is None:
             reg, env, scale_of, dimvec_of = make_env(ctx, N=N, witness=witness)
             regs, x = None, False
         else:
             reg, env, scale_of, dimvec_of, regs = make_alike_env(ctx, alike, N=N)
             x = True
         Unit = ctx.mods["unyt"].Unit
-        m = mono_expand(t)
+        m = mono_expand(t, defs)
         u = build(t, env, ctx.mods, reg)
         check_unit(ctx, "term", u, m, scale_of, dimvec_of, reg, alike=regs)
         u2 = build(t, env, ctx.mods, reg)
@@ -338,17 +380,23 @@ def make_term_case(t, ps, witness=False, alike=None):
                 w = u ** exponent_value(p, f)
                 ctx.require(f"u**{fstr(p)}: exponent given as {f} == as Fraction",
                             And(w.expr == ref.expr, hash(w) == hash(ref), close(w.base_value, ref.base_value), dimvec(w.dimensions) == dimvec(ref.dimensions)))
+    if coef is not None:
+        return Case(f"C05/coef/{coef}/term/d{depth(t)}/{tid(t)}", h, group="coef")
     if alike is not None:
         return Case(f"C05/alike/{alike}/term/d{depth(t)}/{tid(t)}", h, group="alike")
     return Case(f"C05/{'termw' if witness else 'term'}/d{depth(t)}/{tid(t)}", h, group="term")
 
 
-def make_powpow_case(t, p):
+def make_powpow_case(t, p, coef=None):
     N = root_degree(t) * 36
 
     def h(ctx):
-        reg, env, scale_of, dimvec_of = make_env(ctx, N=N)
-        m = mono_expand(t)
+        defs = None
+        if coef is not None:
+            reg, env, scale_of, dimvec_of, defs = make_coef_env(ctx, coef, N=N)
+        else:
+            reg, env, scale_of, dimvec_of = make_env(ctx, N=N)
+        m = mono_expand(t, defs)
         u = build(t, env, ctx.mods, reg)
         up = u ** exponent_value(p, "frac")
         for q in EXPONENTS:
@@ -356,20 +404,26 @@ def make_powpow_case(t, p):
             rhs = u ** exponent_value(p * q, "frac")
             same_unit(ctx, f"(u**p)**{fstr(q)} == u**(p*q)", lhs, rhs, m ** (p * q), scale_of, dimvec_of, True)
             ctx.observe(f"q={fstr(q)}", lhs.base_value)
+    if coef is not None:
+        return Case(f"C05/coef/{coef}/powpow/{tid(t)}/p={fstr(p)}", h, group="coef")
     return Case(f"C05/powpow/{tid(t)}/p={fstr(p)}", h, group="powpow")
 
 
-def make_pair_case(t1, t2, ps, alike=None):
+def make_pair_case(t1, t2, ps, alike=None, coef=None):
     N = lcm(root_degree(t1), root_degree(t2)) * 6
 
     def h(ctx):
-        if alike is None:
+        defs = None
+        if coef is not None:
+            reg, env, scale_of, dimvec_of, defs = make_coef_env(ctx, coef, N=N)
+            regs, x = None, False
+        elif alike is None:
             reg, env, scale_of, dimvec_of = make_env(ctx, N=N)
             regs, x = None, False
         else:
             reg, env, scale_of, dimvec_of, regs = make_alike_env(ctx, alike, N=N)
             x = True
-        m1, m2 = mono_expand(t1), mono_expand(t2)
+        m1, m2 = mono_expand(t1, defs), mono_expand(t2, defs)
         u, v = build(t1, env, ctx.mods, reg), build(t2, env, ctx.mods, reg)
         same_unit(ctx, "commutative u*v == v*u", u * v, v * u, m1 * m2, scale_of, dimvec_of, True, x)
         check_unit(ctx, "u*v", u * v, m1 * m2, scale_of, dimvec_of, reg, alike=regs)
@@ -378,35 +432,43 @@ def make_pair_case(t1, t2, ps, alike=None):
         same_unit(ctx, "u/v == (v/u)**-1", u / v, (v / u) ** -1, m1 / m2, scale_of, dimvec_of, True, x)
         same_unit(ctx, "(u/v)*v == u", (u / v) * v, u, m1, scale_of, dimvec_of, True, x)
         same_unit(ctx, "(u*v)/v == u", (u * v) / v, u, m1, scale_of, dimvec_of, True, x)
-        if alike is not None:
+        if alike is not None or coef is not None:
             same_unit(ctx, "v*(u/v) == u", v * (u / v), u, m1, scale_of, dimvec_of, True, x)
             same_unit(ctx, "u*(v/v) == u", u * (v / v), u, m1, scale_of, dimvec_of, True, x)
         for p in ps:
             e = exponent_value(p, "frac")
             same_unit(ctx, f"(u*v)**{fstr(p)} == u**p*v**p", (u * v) ** e, u ** e * v ** e, (m1 * m2) ** p, scale_of, dimvec_of, True, x)
             same_unit(ctx, f"(u/v)**{fstr(p)} == u**p/v**p", (u / v) ** e, u ** e / v ** e, (m1 / m2) ** p, scale_of, dimvec_of, True, x)
+    if coef is not None:
+        return Case(f"C05/coef/{coef}/pair/{tid(t1)},{tid(t2)}", h, group="coef")
     if alike is not None:
         return Case(f"C05/alike/{alike}/pair/{tid(t1)},{tid(t2)}", h, group="alike")
     return Case(f"C05/pair/{tid(t1)},{tid(t2)}", h, group="pair")
 
 
-def make_triple_case(t1, t2, t3, alike=None):
+def make_triple_case(t1, t2, t3, alike=None, coef=None):
     N = lcm(lcm(root_degree(t1), root_degree(t2)), root_degree(t3))
 
     def h(ctx):
-        if alike is None:
+        defs = None
+        if coef is not None:
+            reg, env, scale_of, dimvec_of, defs = make_coef_env(ctx, coef, N=N)
+            x = False
+        elif alike is None:
             reg, env, scale_of, dimvec_of = make_env(ctx, N=N)
             x = False
         else:
             reg, env, scale_of, dimvec_of, regs = make_alike_env(ctx, alike, N=N)
             x = True
-        m1, m2, m3 = mono_expand(t1), mono_expand(t2), mono_expand(t3)
+        m1, m2, m3 = mono_expand(t1, defs), mono_expand(t2, defs), mono_expand(t3, defs)
         u, v, w = (build(t, env, ctx.mods, reg) for t in (t1, t2, t3))
         same_unit(ctx, "associative (u*v)*w == u*(v*w)", (u * v) * w, u * (v * w), m1 * m2 * m3, scale_of, dimvec_of, True, x)
         same_unit(ctx, "(u/v)/w == u/(v*w)", (u / v) / w, u / (v * w), m1 / m2 / m3, scale_of, dimvec_of, True, x)
         same_unit(ctx, "u*(v/w) == (u*v)/w", u * (v / w), (u * v) / w, m1 * m2 / m3, scale_of, dimvec_of, True, x)
         same_unit(ctx, "u/(v/w) == (u*w)/v", u / (v / w), (u * w) / v, m1 * m3 / m2, scale_of, dimvec_of, True, x)
         ctx.observe("(u*v)*w", ((u * v) * w).base_value)
+    if coef is not None:
+        return Case(f"C05/coef/{coef}/triple/{tid(t1)},{tid(t2)},{tid(t3)}", h, group="coef")
     if alike is not None:
         return Case(f"C05/alike/{alike}/triple/{tid(t1)},{tid(t2)},{tid(t3)}", h, group="alike")
     return Case(f"C05/triple/{tid(t1)},{tid(t2)},{tid(t3)}", h, group="triple")
@@ -671,6 +733,196 @@ def alike_cases(quick):
             out.append(make_alike_eq_case(k, name, t1, t2))
         for i, (t1, t2) in enumerate(ALIKE_FORMS):
             out.append(make_alike_forms_case(k, t1, t2, i))
+    return out
+
+
+# operands whose EXPRESSION carries a number. An expression is symbols times (possibly) a numeric coefficient: 100*xa, 5*xb/2, 2.54*xb, or a
+# bare number (40). The coefficient is part of the unit's scale as well, so it is one more place where the three representations can
+# drift apart: any step that splits the coefficient off (as_coeff_unit), reads the unit off the symbols only, or treats 'expression is a
+# number' / 'expression equals the other operand's' as 'nothing to do' goes wrong exactly on these operands. Atoms of this family:
+# xa, xz (a dimensionless unit with its own symbolic scale, like percent), cxa = ca * xa, cxb = cb * xb, cn = a bare number as a unit.
+# origin = how the coefficient got into the expression.
+COEF_ORIGINS = ["string", "sympy", "quantity", "explicit", "simplify", "product"]
+COEF_ATOMS = ["xa", "cxa", "cxb", "cn", "xz"]
+COEF_VALUES = {   # origin -> (ca, cb, cn)
+    "string": (F(100), F(5, 2), F(40)), "sympy": (F(100), F(5, 2), F(40)), "quantity": (F(100), F(5, 2), F(40)), "explicit": (F(100), F(5, 2), F(40)),
+    "simplify": (F(1000), F(254, 100), F(1000)), "product": (F(100), F(5, 2), F(100)),
+}
+
+
+def make_coef_env(ctx, origin, N=1):
+    """-> reg, env, scale_of, dimvec_of, atom definitions (oracle monomials of cxa, cxb, cn over the symbolic scales of xa, xb).
+    origin:
+      string    Unit('100*xa'), Unit('2.5*xb') (the parser turns 2.5 into 5/2), Unit('40')
+      sympy     Unit(Integer(100) * xa.expr), Unit(Float(2.5) * xb.expr), Unit(Integer(40)): looked up through the expression
+      quantity  Unit(100 * xa), Unit(2.5 * xb), Unit(40 * dimensionless): a unit made from a quantity (its value becomes the coefficient)
+      explicit  the same expressions with base_value and dimensions handed over
+      simplify  (kg/g * xa).simplify() = 1000*xa, (inch/cm * xb).simplify() = 2.54*xb, (km/m).simplify() = 1000: left behind by cancellation
+      product   Unit('100') * xa, xb * Unit('2.5'), cxa / xa: a bare-number unit multiplied in / like symbols divided out"""
+    import sympy
+    reg, env, scale_of, dimvec_of = make_env(ctx, ["xz", "%"], N=N)
+    Unit = ctx.mods["unyt"].Unit
+    D = ctx.mods["unyt"].dimensions
+    xa, xb = env["xa"], env["xb"]
+    sa, sb = scale_of["xa"], scale_of["xb"]
+    ca, cb, cc = COEF_VALUES[origin]
+    if origin == "string":
+        cxa, cxb, cn = Unit("100*xa", registry=reg), Unit("2.5*xb", registry=reg), Unit("40", registry=reg)
+    elif origin == "sympy":
+        cxa, cxb, cn = Unit(sympy.Integer(100) * xa.expr, registry=reg), Unit(sympy.Float(2.5) * xb.expr, registry=reg), Unit(sympy.Integer(40), registry=reg)
+    elif origin == "quantity":
+        cxa, cxb, cn = Unit(100 * xa, registry=reg), Unit(2.5 * xb, registry=reg), Unit(40 * Unit(registry=reg), registry=reg)
+    elif origin == "explicit":
+        cxa = Unit(sympy.Integer(100) * xa.expr, base_value=sa * 100.0, dimensions=D.length, registry=reg)
+        cxb = Unit(sympy.Float(2.5) * xb.expr, base_value=sb * 2.5, dimensions=D.mass, registry=reg)
+        cn = Unit(sympy.Integer(40), base_value=40.0, dimensions=D.dimensionless, registry=reg)
+    elif origin == "simplify":
+        cxa = (Unit("kg", registry=reg) / Unit("g", registry=reg) * xa).simplify()
+        cxb = (Unit("inch", registry=reg) / Unit("cm", registry=reg) * xb).simplify()
+        cn = (Unit("km", registry=reg) / Unit("m", registry=reg)).simplify()
+    elif origin == "product":
+        cxa, cxb = Unit("100", registry=reg) * xa, xb * Unit("2.5", registry=reg)
+        cn = cxa / xa
+    else:
+        raise KeyError(origin)
+    env["cxa"], env["cxb"], env["cn"] = cxa, cxb, cn
+    defs = {"cxa": Mono(ca, {"xa": F(1)}), "cxb": Mono(cb, {"xb": F(1)}), "cn": Mono(cc, {})}
+    return reg, env, scale_of, dimvec_of, defs
+
+
+COEF_FORMS = [
+    # (u, v): simplify()/as_coeff_unit() of u*v, u/v, v*u and of their fractional powers, and the cached unit rules of unyt.array on (u, v)
+    (A("cxa"), A("cxb")), (A("cxb"), A("xa")), (A("xa"), A("cxa")), (A("cn"), A("cxa")), (A("cxb"), A("cn")), (P(A("cxa"), F(1, 2)), A("cxb")),
+    (A("%"), A("cxa")), (A("cn"), A("%")), (P(A("cxb"), F(-1, 3)), P(A("cxa"), F(3, 2))), (A("cn"), A("cn")), (A("%"), A("%")),
+]   # the dimensionless unit with a scale is the table's % here: simplify() folds it into the coefficient (concrete scales only, see OUTSIDE)
+
+
+def make_coef_forms_case(origin, t1, t2, idx):
+    N = lcm(root_degree(t1), root_degree(t2)) * 6
+
+    def h(ctx):
+        reg, env, scale_of, dimvec_of, defs = make_coef_env(ctx, origin, N=N)
+        UA = ctx.mods["UA"]
+        m1, m2 = mono_expand(t1, defs), mono_expand(t2, defs)
+        u, v = build(t1, env, ctx.mods, reg), build(t2, env, ctx.mods, reg)
+        look = _prefix_lookup(scale_of, dimvec_of)
+        half, third = F(1, 2), F(-1, 3)
+        for tag, w, m in (("u*v", u * v, m1 * m2), ("u/v", u / v, m1 / m2), ("v*u", v * u, m1 * m2), ("(u*v)**(1/2)", (u * v) ** half, (m1 * m2) ** half),
+                          ("u**(-1/3)", u ** third, m1 ** third), ("v**(1/2)", v ** 0.5, m2 ** half)):
+            want, wd = mono_scale(m, scale_of), mono_dimvec(m, dimvec_of)
+            ctx.require(f"coef forms {tag}: scale and dimension of the unit", And(close(w.base_value, want), dimvec(w.dimensions) == wd))
+            before = w.expr
+            c0, r0 = w.as_coeff_unit()
+            es, ed = eval_expr(r0.expr, scale_of, dimvec_of, lookup=look)
+            ctx.require(f"coef forms as_coeff_unit {tag}: coeff * unit denotes the same scale and dimension (values and expression)",
+                        And(close(c0 * r0.base_value, want), close(c0 * es, want), dimvec(r0.dimensions) == wd, ed == wd, numeric_coefficient(r0.expr) == 1, w.expr == before))
+            # a numeric factor that is a radical (sqrt(10)) is a legitimate part of a unit expression: (1000*xa)**(1/2) is 10*sqrt(10)*sqrt(xa)
+            irr = " (expression with a radical of a number)" if irrational_factor(w.expr) else ""
+            r = call(w.simplify)
+            ctx.require(f"coef forms simplify{irr} {tag}: returns a unit", r[0] == "ok", got=r[1], expr=str(w.expr))
+            if r[0] != "ok":
+                continue
+            z = r[1]
+            zs, zd = eval_expr(z.expr, scale_of, dimvec_of, lookup=look)
+            ctx.require(f"coef forms simplify {tag}: scale and dimension unchanged (values and expression), equal to the unit before, a new object",
+                        And(close(z.base_value, want), close(zs, want), dimvec(z.dimensions) == wd, zd == wd, bool(z == w), z is not w, w.expr == before, close(w.base_value, want)))
+            z2 = z.simplify()
+            ctx.require(f"coef forms simplify {tag}: idempotent", And(z2.expr == z.expr, close(z2.base_value, want)))
+            c, rr = z.as_coeff_unit()
+            ctx.require(f"coef forms as_coeff_unit of simplify {tag}: coeff * unit denotes the same scale and dimension",
+                        And(close(c * rr.base_value, want), dimvec(rr.dimensions) == wd, numeric_coefficient(rr.expr) == 1))
+        for name, rule, m, pe in (("_multiply_units", UA._multiply_units, m1 * m2, (u * v).expr), ("_divide_units", UA._divide_units, m1 / m2, (u / v).expr)):
+            want, wd = mono_scale(m, scale_of), mono_dimvec(m, dimvec_of)
+            irr = " (expression with a radical of a number)" if irrational_factor(pe) else ""
+            r = call(rule, u, v)
+            ctx.require(f"coef {name}{irr}: returns", r[0] == "ok", got=r[1], expr=str(pe))
+            if r[0] != "ok":
+                continue
+            c, w = r[1]
+            ctx.require(f"coef {name}: coeff * unit is the product/quotient", And(close(c * w.base_value, want), dimvec(w.dimensions) == wd))
+            c2, w2 = rule(u, v)   # warm lru_cache
+            ctx.require(f"coef {name}: cached answer is the same", And(close(c2, c), w2.expr == w.expr, close(w2.base_value, w.base_value)))
+            rs = call(rule, v, u)
+            ctx.require(f"coef {name}{irr}: returns with the operands swapped", rs[0] == "ok", got=rs[1], expr=str(pe))
+            if rs[0] == "ok":
+                cr, wr = rs[1]
+                mr = m1 * m2 if name == "_multiply_units" else m2 / m1
+                ctx.require(f"coef {name}: operands swapped", And(close(cr * wr.base_value, mono_scale(mr, scale_of)), dimvec(wr.dimensions) == mono_dimvec(mr, dimvec_of)))
+            ctx.observe(name + " coeff", c)
+        for name, rule, p in (("_sqrt_unit", UA._sqrt_unit, F(1, 2)), ("_cbrt_unit", UA._cbrt_unit, F(1, 3)), ("_square_unit", UA._square_unit, F(2)),
+                              ("_reciprocal_unit", UA._reciprocal_unit, F(-1))):
+            for tag, x, mx in (("u", u, m1), ("v", v, m2)):
+                c, w = rule(x)
+                ctx.require(f"coef {name}({tag}): scale and dimension", And(close(c * w.base_value, mono_scale(mx ** p, scale_of)), dimvec(w.dimensions) == mono_dimvec(mx ** p, dimvec_of)))
+        for pw in (2, 0.5, -1.5):
+            for tag, x, mx in (("u", u, m1), ("v", v, m2)):
+                c, w = UA._power_unit(x, pw)
+                mp = mx ** Fraction(pw)
+                ctx.require(f"coef _power_unit({tag}, {pw}): scale and dimension", And(close(c * w.base_value, mono_scale(mp, scale_of)), dimvec(w.dimensions) == mono_dimvec(mp, dimvec_of)))
+    return Case(f"C05/coef/{origin}/forms/{idx:02d}/{tid(t1)},{tid(t2)}", h, group="coef")
+
+
+def has_coef_atom(*terms):
+    names = set()
+    for t in terms:
+        names |= atoms_of(t)
+    return bool(names & {"cxa", "cxb", "cn"})
+
+
+def coef_cases(quick):
+    """the catalogue of the main family over the atoms xa, cxa, cxb, cn, xz, each case under an origin of the coefficient. quick: every atom
+    under every origin with all exponents, products / quotients of two atoms, power-of-power of the coefficient atoms, atom pairs, a seeded
+    sample of atom triples and deeper terms under one origin in rotation; thorough: every depth <= 1 term and atom pair under every origin"""
+    out = []
+    atoms, d1, d2, d3 = catalogue(COEF_ATOMS, 30 if quick else 300, 20 if quick else 300, seed=31)
+    rot = itertools.cycle(COEF_ORIGINS)
+    ps_main = [F(2), F(-1), F(1, 2), F(-1, 3), F(3, 2)]
+    some_p = [F(2), F(-1, 2), F(2, 3)]
+
+    def origins_for(*terms, always=False):
+        if not has_coef_atom(*terms):
+            return [next(rot)]
+        return COEF_ORIGINS if (always or not quick) else [next(rot)]
+    for t in atoms:
+        for o in origins_for(t, always=True):
+            out.append(make_term_case(t, EXPONENTS, coef=o))
+    for t in d1:
+        if quick and t[0] == "pow":
+            continue     # quick: powers of atoms are walked by the atom cases (u**p) and the power-of-power cases
+        for o in origins_for(t):
+            out.append(make_term_case(t, ps_main, coef=o))
+    for t in d2 + d3:
+        out.append(make_term_case(t, some_p, coef=next(rot)))
+    for a in ("cxa", "cxb", "cn"):
+        for p in EXPONENTS:
+            for o in origins_for(A(a)):
+                out.append(make_powpow_case(A(a), p, coef=o))
+    rnd = random.Random(37)
+    pool = atoms + d1 + d2
+    seen = set()
+    for a, b in itertools.product(atoms, atoms):
+        seen.add((a, b))
+        for o in origins_for(a, b):
+            out.append(make_pair_case(a, b, some_p, coef=o))
+    while len(seen) < 25 + (15 if quick else 200):
+        a, b = rnd.choice(pool), rnd.choice(pool)
+        if (a, b) not in seen:
+            seen.add((a, b))
+            out.append(make_pair_case(a, b, rnd.sample(EXPONENTS[2:], 2), coef=next(rot)))
+    triples = list(itertools.product(atoms, atoms, atoms))
+    if quick:
+        triples = rnd.sample(triples, 40)
+    for tr in triples:
+        out.append(make_triple_case(*tr, coef=next(rot)))
+    seen = set(triples)
+    while len(seen) < len(triples) + (10 if quick else 200):
+        tr = (rnd.choice(pool), rnd.choice(pool), rnd.choice(pool))
+        if tr not in seen:
+            seen.add(tr)
+            out.append(make_triple_case(*tr, coef=next(rot)))
+    for i, (t1, t2) in enumerate(COEF_FORMS):
+        for o in (COEF_ORIGINS if (not quick or i < 6) else [next(rot)]):
+            out.append(make_coef_forms_case(o, t1, t2, i))
     return out
 
 
@@ -1462,6 +1714,7 @@ def cases(tier, mods):
             seen.add(tr)
             out.append(make_triple_case(*tr))
     out += alike_cases(quick)
+    out += coef_cases(quick)
     for name, extra, t1, t2 in EQ_PAIRS:
         out.append(make_eq_case(name, extra, t1, t2))
     out += law_cases(quick)
